@@ -22,10 +22,16 @@ def evidence():
         e = json.load(open(f)); c = e["coverage"]
         rows.append("| %s | %s | %s | %s | %s | %s | %s | %s | %s |" % (e["property_id"], e["tier"], c.get("obligations"), c.get("discharged"), c.get("inconclusive"), c.get("states"), c.get("transitions"), c.get("solver_s"), e["wall_s"]))
     return "\n".join(rows)
+def thorough():
+    rows = ["| property | obligations | confirmed | inconclusive | violations | paths | solver checks | solver s | wall s |", "|---|---|---|---|---|---|---|---|---|"]
+    for f in sorted(glob.glob(os.path.join(V, "evidence_thorough", "*.json"))):
+        e = json.load(open(f)); c = e["coverage"]
+        rows.append("| %s | %s | %s | %s | %s | %s | %s | %s | %s |" % (e["property_id"], c.get("obligations"), c.get("discharged"), c.get("inconclusive"), e.get("violations"), c.get("states"), c.get("transitions"), c.get("solver_s"), e["wall_s"]))
+    return "\n".join(rows)
 def main():
     p = os.path.join(V, "DESIGN.md")
     s = open(p, encoding="utf-8").read()
-    for tag, fn in (("SEEDS", seeds), ("FINDINGS", findings), ("EVIDENCE", evidence)):
+    for tag, fn in (("SEEDS", seeds), ("FINDINGS", findings), ("EVIDENCE", evidence), ("THOROUGH", thorough)):
         s = re.sub(r"<!-- BEGIN %s -->.*?<!-- END %s -->" % (tag, tag), lambda m: "<!-- BEGIN %s -->\n%s\n<!-- END %s -->" % (tag, fn(), tag), s, flags=re.S)
     open(p, "w", encoding="utf-8").write(s)
 main()
